@@ -74,7 +74,7 @@ QBoundary(rs, cs, ids)        ==
 
 (* ---------- the operation alphabet: a record o with field op ---------- *)
 IsMutation(o) == o.op \in {"rename_map", "modify_element", "modify_row", "modify_column", "append", "remove_rows",
-                           "rename_column", "slice", "reset_index", "fillna", "touch_source"}
+                           "rename_column", "slice", "reset_index", "fillna", "touch_source", "wrap_and_touch"}
 
 Enabled(o, rs, cs) ==
   CASE o.op = "modify_element" -> HasLabel(rs, o.lab) /\ HasCol(cs, o.col)
@@ -89,6 +89,9 @@ Enabled(o, rs, cs) ==
     [] o.op \in {"reset_index", "fillna", "iter", "len", "access"} -> TRUE
     \* touch_source: the table that was appended last is modified in place afterwards; this table is a different table and keeps its contents
     [] o.op = "touch_source"   -> TRUE
+    \* wrap_and_touch: from here on the table is a second DataModel built from this one (DataModel(t)); the first one then gets a row
+    \* appended (which gives it a frame of its own) and is queried by every column: this table keeps its contents
+    [] o.op = "wrap_and_touch" -> TRUE
     [] o.op \in {"column", "index", "index_first", "index_dm", "bundle"} -> HasCol(cs, o.col)
     [] o.op = "read_block"     -> BlockDefined(rs, cs, o.v)
     [] o.op \in {"read_block_with", "boundary"} -> HasCol(cs, "stmt_id")
